@@ -62,6 +62,12 @@ def c12_scenarios(r, tier):
                                           gen_line(1, "DW/x4", 4, 5), gen_line(1, "DW/x5", 3, 5)]))
     for f in ("commitpub:commit:0:2", "commitsig:commit:0:3"):
         out.append(("tampered-commit-reply " + f, [cluster_line(ids), gen_line(1, "DW/x6", 2, 3, f)]))
+    # the client leaves the passphrase out (the instances' configured generation passphrase applies): the account must be
+    # just as usable
+    for (n_, t_, ids_) in [(3, 2, [1, 2, 3]), (2, 2, [1, 2])]:
+        acct = "DW/np%d_%d" % (n_, t_)
+        out.append(("no-client-passphrase n=%d t=%d" % (n_, t_), [cluster_line(ids_), gen_line(ids_[-1], acct, t_, n_, "nopass"), "holds %s" % hx(acct),
+                                                                   "relations %s" % hx(acct), "recover %s" % hx(acct), "use %s" % hx(acct)]))
     # equivocation: one participant hands another a contribution from a different polynomial with the same constant
     # term (it verifies, and the composite key is unchanged): only the final threshold-signature check can notice;
     # whatever is then reported as success must still be one consistent key
@@ -179,6 +185,15 @@ def c16_scenarios(tier):
         lines = [cluster_line(ids)] + [hline("hprepare", i, p, acct, t, ids) for i in ids] + [hline("hexecute", i, p, acct) for i in ids] + \
                 [hline("hcommit", i, p, acct) for i in ids] + ["holds %s" % hx(acct)]
         out.append(("peer %s drives" % p, lines))
+    # a participant id this instance has no peer for (configuration skew) while a peer with a higher id exists: the share
+    # computed for that id must not be sent to anybody else
+    for (idset_, parts_) in [([1, 2, 3, 5], [1, 2, 4]), ([1, 2, 3, 5], [1, 4, 5]), ([2, 3, 7, 9], [2, 5, 9])]:
+        k += 1
+        acct = "DW/sk%d" % k
+        p = peer_name(idset_, idset_[0])
+        lines = [cluster_line(idset_)] + [hline("hprepare", i, p, acct, 2, parts_) for i in parts_ if i in idset_] + \
+                [hline("hexecute", parts_[0], p, acct), "msglog", "parts %s" % ",".join(str(x) for x in parts_)]
+        out.append(("skewed participants %s on %s" % (parts_, idset_), lines))
     # share ownership for all ordered pairs asker < owner
     for idset in ([1, 2, 3], [5, 6, 900, 70000]):
         for owner in idset:
@@ -249,6 +264,10 @@ def c17_scenarios(r, tier):
     T.append(("refused-commit-wallet", [hline("hprepare", i, p, N, t, ids) for i in ids] + [hline("hexecute", i, p, N) for i in ids] +
               [hline("hcommit", 2, p, N), hline("hprepare", 2, p, N, t, ids), hline("habort", 2, p, N), hline("habort", 2, p, N),
                hline("hcommit", 1, p, N), hline("hcommit", 1, p, N), hline("habort", 1, p, N), hline("habort", 3, p, N), "holds %s" % hx(N)]))
+    # a participant list naming an id this instance has no peer for: nobody can contribute for it, so no commit may succeed
+    U = "DW/unk"
+    T.append(("unknown-participant", [hline("hprepare", i, p, U, 3, [1, 2, 3, 4]) for i in ids] + [hline("hexecute", 1, p, U), hline("hcommit", 1, p, U), hline("hcommit", 2, p, U),
+                                      hline("hcommit", 3, p, U), "holds %s" % hx(U), hline("habort", 1, p, U), hline("habort", 2, p, U), hline("habort", 3, p, U)]))
     # prepares for one name arriving at the same moment: exactly one may be accepted (a wide participant list makes
     # building the own contribution take long enough for the requests to overlap)
     for k in range(2 if tier != "thorough" else 10):
@@ -400,5 +419,15 @@ def c14_scenarios(r, tier):
                 else:
                     lines.append("%s %d %s %s" % (opn, i, hx(acct), d[1]))
             pairs.append((kind, d1, d2, i1, i2))
+        # a request whose write stalls while its client gives up (X), a duty further on (A) while X stalls, and — after X's
+        # write has landed — the conflicting duty (B): one instance must not sign both A and B
+        ix = r.choice(ids)
+        bx = 10 * (npairs + 2)
+        dA, dB = ("iatt", att9(bx + 4, bx + 5, 0)), ("iatt", att9(bx + 4, bx + 5, 1))
+        lines.append("iattx %d %s %s 40 220" % (ix, hx(acct), att9(bx, bx + 1, 2)))
+        ia = len(lines); lines.append("iatt %d %s %s" % (ix, hx(acct), dA[1]))
+        lines.append("sleep 320")
+        ib = len(lines); lines.append("iatt %d %s %s" % (ix, hx(acct), dB[1]))
+        pairs.append(("stalled-write", dA, dB, [ia], [ib]))
         out.append(("n=%d t=%d" % (n, t), n, t, acct, lines, pairs))
     return out
